@@ -33,7 +33,15 @@ def walk_zorg_page(
     tree = parser.prog()  # type: ignore[no-untyped-call]
     compiler = ZorgFileCompiler(zorg_page, error_manager)
     walker = antlr4.ParseTreeWalker()
-    walker.walk(compiler, tree)
+    try:
+        walker.walk(compiler, tree)
+    except Exception:  # pylint: disable=broad-except
+        # An error-recovery parse tree may lack the children that the
+        # compiler's listener methods rely on. None of this page's notes are
+        # kept in that case anyway (see ZorgFileCompiler._add_note()).
+        if not error_manager.errors:
+            raise
+        zorg_page.has_errors = True
     return zorg_page
 
 
